@@ -24,6 +24,7 @@ type c06Ctx struct {
 	r       *Result
 	runs    int
 	maxRuns int
+	pool    []c06PoolItem // accepted sources whose formatting kept tokens and tree: the members of the txtar archives
 }
 
 func c06Key(kind, why string) string { return kind + ":" + why }
@@ -103,6 +104,10 @@ func c06Check(c *c06Ctx, in fmtInput) {
 		r.Violate(Violation{Kind: "property", Key: "formatted-text-has-different-tree",
 			Detail: "parse(format(parse src)) and parse src differ (evaluator view of the tree: nodes, types, Any wrappers)", Input: src, Impl: formatted})
 		return
+	}
+
+	if len(src) <= 1200 && len(c.pool) < 4000 {
+		c.pool = append(c.pool, c06PoolItem{src, formatted})
 	}
 
 	// ---- property oracle 3: same behaviour ----
@@ -189,8 +194,10 @@ func runC06(cfg Config, r *Result) {
 	defer model.Close()
 	r.Rule = "inputs: hand-written layouts, every evy program in /repo (docs code blocks, *.evy), the same decorated, and type-directed generated programs " +
 		"(plain / decorated with comments at line ends and on own lines, blank-line runs, multi-line array and map literals with comments / widened horizontal white space / stray tokens after `end`); " +
+		"and txtar archives of 1-7 members built from the accepted sources (members that grow when formatted: indentation removed, `x:=1`, no final newline; as written; already formatted; members that are not evy files; an archive comment; now and then a member that is not an accepted program) run through the built binary `evy fmt --write` / `--check`: every member must be what formatting it alone gives, everything else untouched; " +
 		"only inputs accepted by parser.Parse count; non-trivial = at least 6 words and a block, a comment or a multi-line literal; distinct = distinct source text"
 	c := &c06Ctx{model: model, r: r, maxRuns: cfg.N(700, 6000)}
+	go evyBinary() // built while the in-process cases run; used by the txtar archives at the end
 	if rtm, err := StartModel("fmtparse"); err == nil {
 		defer rtm.Close()
 		c.rt = &rtCtx{model: rtm, max: cfg.N(12000, 150000)}
@@ -214,6 +221,9 @@ func runC06(cfg Config, r *Result) {
 					c06Check(c, fmtInput{s, "replay"})
 					return
 				}
+				if c06ReplayTxtar(c, v.Input) {
+					return
+				}
 			}
 		}
 		r.Note("replay file %s has no string input", cfg.Replay)
@@ -231,6 +241,7 @@ func runC06(cfg Config, r *Result) {
 	} {
 		c06Check(c, fmtInput{w, "witness-stray-after-end"})
 	}
+	c06Txtars(cfg, c)
 }
 
 func init() { register("C06", runC06) }
